@@ -82,6 +82,9 @@ def ev(n, env):
     s = U(n)
     if s in env:
         return env[s]
+    if isinstance(n, ast.List) and n.elts:
+        # a list of column labels
+        return ('cols', tuple(U(e) for e in n.elts))
     if isinstance(n, ast.Compare) and len(n.ops) == 1 and isinstance(
             n.ops[0], ast.Eq):
         l = ev(n.left, env)
@@ -140,15 +143,17 @@ def ev(n, env):
                 n.slice, ast.Tuple) and len(n.slice.elts) == 2:
             m, c = n.slice.elts
             mm = ev(m, env)
+            cc = ev(c, env)
+            many = isinstance(cc, tuple) and cc and cc[0] == 'cols'
             if isinstance(mm, Labels):
                 # label-based row selection
                 f = Frame(v[1].src, v[1].filters | mm.frame.filters
-                          | {BYLABEL}, v[1].cols)
-                return Series(f, U(c))
+                          | {BYLABEL}, cc[1] if many else v[1].cols)
+                return f if many else Series(f, U(c))
             if isinstance(mm, Mask):
                 f = Frame(v[1].src, v[1].filters | mm.frame.filters
-                          | mm.conds, v[1].cols)
-                return Series(f, U(c))
+                          | mm.conds, cc[1] if many else v[1].cols)
+                return f if many else Series(f, U(c))
             return None
         if isinstance(v, Frame):
             if isinstance(n.slice, ast.List):
